@@ -286,6 +286,47 @@ def finalize_nested(n: int, outer_len: int, inner_len: int) -> bool:
     return H.done(got == 'ok' and mx == longest)
 
 
+# =============================================================== 2b. histories: the limit belongs to the engine of THIS evaluation
+def limit_history(n1: int, n2: int, length: int) -> bool:
+    """
+    pre: -1 <= n1 <= 4 and -1 <= n2 <= 4 and H.P('len', 3) == length
+    pre: H.fresh(n1, n2, length)
+    post: _
+    """
+    # one context (its own '#iter' finaliser) and two functions with their own parameter-type objects are used first by
+    # an engine with limit n1, then by an engine with limit n2: the second evaluation obeys n2, whatever n1 was.
+    # Everything that could remember something is created per path, so the symbolic run and the replay see the same
+    # history.
+    with H.NoTracing():
+        ctx = yaql.create_context()
+
+        @specs.parameter('seq', yaqltypes.Iterable())
+        def via_iterable(seq):
+            return seq
+
+        @specs.parameter('seq', yaqltypes.Iterator())
+        def via_iterator(seq):
+            return seq
+        ctx.register_function(via_iterable, name='viaIterable')
+        ctx.register_function(via_iterator, name='viaIterator')
+    ok = True
+    for text in ('viaIterable($s)', 'viaIterator($s)', '$s'):
+        for n in (n1, n2):
+            src = Counted(length)
+            c = ctx.create_child_context()
+            c['s'] = src
+            st = yq.stmt(text)
+            try:
+                res = expressions.Statement(st.expression, engine_with(limitIterators=n)).evaluate(context=c)
+                raised = False
+            except yexc.CollectionTooLargeException:
+                raised, res = True, None
+            ok = ok and raised == (0 <= n < length) and not src.blown and (n < 0 or src.pulls <= n + 1)
+            if not raised:
+                ok = ok and len(res) == length
+    return H.done(ok)
+
+
 # =============================================================== 3. registry sweep with an instrumented endless source
 def classify(label_or_text):
     """root-cause class (stable key) of a sweep case / expression template"""
@@ -829,12 +870,16 @@ def conditions(tier, seed):
                 continue
             if outer == 'frozenset' and inner not in ('tuple', 'frozenset', 'frozendict-values'):
                 continue        # unhashable inputs cannot be built
-            if q and (SHAPES.index(outer) + SHAPES.index(inner) + seed) % 3 != 0:
+            core = (outer, inner) in (('frozendict-keys', 'tuple'), ('tuple', 'frozendict-keys'), ('generator', 'frozendict-values'))
+            if q and not core and (SHAPES.index(outer) + SHAPES.index(inner) + seed) % 3 != 0:
                 continue
             mx = 2 if q else 3
             add('finalize_nested[%s,%s]' % (outer, inner), 'finalize_nested',
                 'N in [-1,%d], outer/inner lengths in [0,%d]; %s of %s through $v and #finalize' % (mx, mx, outer, inner),
                 t if q else 900, outer=outer, inner=inner, nmax=mx, maxlen=mx)
+    for ln in ([3] if q else [0, 1, 3, 5]):
+        add('limit_history[len%d]' % ln, 'limit_history', 'two evaluations on one context and on functions with their own '
+            'Iterable()/Iterator() type objects, engine limits n1 then n2 in [-1,4], source length %d' % ln, 240 if q else 600, len=ln)
     # registry sweep
     cases = all_cases()
     labels = [c['label'] for c in cases]
